@@ -3,7 +3,11 @@
 // (unshadowed) SDK build: scripted children report generated results, real batch/simple children
 // carry capture exporters.  Oracle: a provider-level ForceFlush/Shutdown that returns true implies
 // every owned child reported true for that call (and, for real children, that everything produced
-// before the call reached the exporter and the exporter's ForceFlush ran).
+// before the call reached the exporter and the exporter's ForceFlush ran).  At the end the provider is
+// destroyed: everything produced before Shutdown / destruction must have reached every real child's
+// exporter, a batch child's exporter was shut down exactly once however often Shutdown was requested,
+// and no exporter call happened after the provider's Shutdown had returned.  The MeterProvider may
+// also own a real PeriodicExportingMetricReader (its own worker thread) with a capture exporter.
 #include <atomic>
 #include <mutex>
 
@@ -12,7 +16,10 @@
 #include "opentelemetry/sdk/logs/logger_provider.h"
 #include "opentelemetry/sdk/logs/read_write_log_record.h"
 #include "opentelemetry/sdk/logs/simple_log_record_processor.h"
+#include "opentelemetry/sdk/metrics/export/periodic_exporting_metric_reader.h"
+#include "opentelemetry/sdk/metrics/export/periodic_exporting_metric_reader_options.h"
 #include "opentelemetry/sdk/metrics/meter_provider.h"
+#include "opentelemetry/sdk/metrics/push_metric_exporter.h"
 #include "opentelemetry/sdk/metrics/metric_reader.h"
 #include "opentelemetry/sdk/trace/batch_span_processor.h"
 #include "opentelemetry/sdk/trace/batch_span_processor_options.h"
@@ -37,6 +44,9 @@ struct ChildLog
   int produced = 0;            // records handed to the child (scripted) or exported (real)
   int exported = 0;
   int flush_calls = 0, shutdown_calls = 0, xflush_calls = 0;
+  int xshutdown_calls = 0;            // Shutdown calls on the capture exporter
+  bool owner_shut_returned = false;   // the provider's first Shutdown has returned
+  int xcalls_after_owner_shutdown = 0;  // exporter Export/ForceFlush/Shutdown calls after that
   bool next_flush = true, next_shutdown = true;
   std::vector<bool> flush_results, shutdown_results;
 };
@@ -54,15 +64,23 @@ public:
   {
     std::lock_guard<std::mutex> g(l_->mu);
     l_->exported += static_cast<int>(b.size());
+    l_->xcalls_after_owner_shutdown += l_->owner_shut_returned;
     return otel::sdk::common::ExportResult::kSuccess;
   }
   bool ForceFlush(std::chrono::microseconds) noexcept override
   {
     std::lock_guard<std::mutex> g(l_->mu);
     l_->xflush_calls++;
+    l_->xcalls_after_owner_shutdown += l_->owner_shut_returned;
     return true;
   }
-  bool Shutdown(std::chrono::microseconds) noexcept override { return true; }
+  bool Shutdown(std::chrono::microseconds) noexcept override
+  {
+    std::lock_guard<std::mutex> g(l_->mu);
+    l_->xshutdown_calls++;
+    l_->xcalls_after_owner_shutdown += l_->owner_shut_returned;
+    return true;
+  }
 
 private:
   std::shared_ptr<ChildLog> l_;
@@ -108,15 +126,23 @@ public:
   {
     std::lock_guard<std::mutex> g(l_->mu);
     l_->exported += static_cast<int>(b.size());
+    l_->xcalls_after_owner_shutdown += l_->owner_shut_returned;
     return otel::sdk::common::ExportResult::kSuccess;
   }
   bool ForceFlush(std::chrono::microseconds) noexcept override
   {
     std::lock_guard<std::mutex> g(l_->mu);
     l_->xflush_calls++;
+    l_->xcalls_after_owner_shutdown += l_->owner_shut_returned;
     return true;
   }
-  bool Shutdown(std::chrono::microseconds) noexcept override { return true; }
+  bool Shutdown(std::chrono::microseconds) noexcept override
+  {
+    std::lock_guard<std::mutex> g(l_->mu);
+    l_->xshutdown_calls++;
+    l_->xcalls_after_owner_shutdown += l_->owner_shut_returned;
+    return true;
+  }
 
 private:
   std::shared_ptr<ChildLog> l_;
@@ -174,11 +200,55 @@ private:
   std::shared_ptr<ChildLog> l_;
 };
 
+// a push exporter for the real periodic reader: remembers the cumulative value of the one counter
+class MetricSink final : public sdkm::PushMetricExporter
+{
+public:
+  explicit MetricSink(std::shared_ptr<ChildLog> l) : l_(std::move(l)) {}
+  otel::sdk::common::ExportResult Export(const sdkm::ResourceMetrics &rm) noexcept override
+  {
+    std::lock_guard<std::mutex> g(l_->mu);
+    l_->xcalls_after_owner_shutdown += l_->owner_shut_returned;
+    for (auto &sm : rm.scope_metric_data_)
+      for (auto &md : sm.metric_data_)
+        for (auto &p : md.point_data_attr_)
+          if (otel::nostd::holds_alternative<sdkm::SumPointData>(p.point_data))
+          {
+            auto &v = otel::nostd::get<sdkm::SumPointData>(p.point_data).value_;
+            if (otel::nostd::holds_alternative<int64_t>(v))
+              l_->exported = static_cast<int>(otel::nostd::get<int64_t>(v));
+          }
+    return otel::sdk::common::ExportResult::kSuccess;
+  }
+  sdkm::AggregationTemporality GetAggregationTemporality(sdkm::InstrumentType) const noexcept override
+  {
+    return sdkm::AggregationTemporality::kCumulative;
+  }
+  bool ForceFlush(std::chrono::microseconds) noexcept override
+  {
+    // (the statement speaks of the reader's Export calls only: a ForceFlush after Shutdown still reaches
+    // the exporter's ForceFlush - not counted)
+    std::lock_guard<std::mutex> g(l_->mu);
+    l_->xflush_calls++;
+    return true;
+  }
+  bool Shutdown(std::chrono::microseconds) noexcept override
+  {
+    std::lock_guard<std::mutex> g(l_->mu);
+    l_->xshutdown_calls++;
+    return true;
+  }
+
+private:
+  std::shared_ptr<ChildLog> l_;
+};
+
 enum ChildKind
 {
   kScripted,
   kSimple,
-  kBatch
+  kBatch,
+  kPeriodic  // a real PeriodicExportingMetricReader (MeterProvider only)
 };
 
 struct Child
@@ -189,8 +259,14 @@ struct Child
 
 std::chrono::microseconds gen_timeout(vh::Reader &rd, std::string *txt)
 {
-  switch (rd.weighted({5, 2, 2}))
+  switch (rd.weighted({5, 2, 2, 1, 1}))
   {
+    case 3:
+      *txt = "0";
+      return std::chrono::microseconds(0);
+    case 4:
+      *txt = "1us";
+      return std::chrono::microseconds(1);
     case 0:
       *txt = "max";
       return (std::chrono::microseconds::max)();
@@ -205,7 +281,7 @@ std::chrono::microseconds gen_timeout(vh::Reader &rd, std::string *txt)
 
 // shared program skeleton: produce / script / flush / shutdown
 template <class Produce, class Flush, class Shutdown>
-void run_program(vh::Case &c, std::vector<Child> &kids, Produce produce, Flush flush, Shutdown shutdown)
+int run_program(vh::Case &c, std::vector<Child> &kids, Produce produce, Flush flush, Shutdown shutdown)
 {
   vh::Reader &rd = c.rd;
   int produced   = 0;
@@ -271,7 +347,7 @@ void run_program(vh::Case &c, std::vector<Child> &kids, Produce produce, Flush f
           {
             VH_CHECK(c, k.log->exported == produced,
                      "provider ForceFlush returned true but child " << j << " ("
-                                                                    << (k.kind == kBatch ? "batch" : "simple")
+                                                                    << (k.kind == kBatch ? "batch" : k.kind == kPeriodic ? "periodic reader" : "simple")
                                                                     << ") exported " << k.log->exported << " of "
                                                                     << produced << " records produced before the call");
             VH_CHECK(c, k.log->xflush_calls > before_x[j],
@@ -308,13 +384,18 @@ void run_program(vh::Case &c, std::vector<Child> &kids, Produce produce, Flush f
                 if (!k.log->shutdown_results[q])
                   any_false = true;
             }
-            else
+            else if (k.kind != kPeriodic)  // (the statement promises no final export of a periodic reader)
             {
               std::lock_guard<std::mutex> g(k.log->mu);
               VH_CHECK(c, k.log->exported == produced, "after provider Shutdown child " << j << " had exported "
                                                                                        << k.log->exported << " of "
                                                                                        << produced << " records");
             }
+          }
+          for (auto &k : kids)
+          {
+            std::lock_guard<std::mutex> g(k.log->mu);
+            k.log->owner_shut_returned = true;
           }
           if (any_false)
           {
@@ -331,6 +412,47 @@ void run_program(vh::Case &c, std::vector<Child> &kids, Produce produce, Flush f
     }
   }
   c.nontrivial = kids.size() >= 2 || false_child_seen;
+  return produced;
+}
+
+// after the provider (and every handle that keeps its context alive) has been destroyed
+void check_after_destruction(vh::Case &c, std::vector<Child> &kids, int produced)
+{
+  for (size_t j = 0; j < kids.size(); ++j)
+  {
+    Child &k = kids[j];
+    std::lock_guard<std::mutex> g(k.log->mu);
+    if (k.kind == kScripted)
+    {
+      VH_CHECK(c, k.log->shutdown_calls >= 1, "the provider was destroyed but child " << j << " was never shut down");
+      continue;
+    }
+    const char *what = k.kind == kBatch ? "batch" : k.kind == kPeriodic ? "periodic reader" : "simple";
+    // (what a SIMPLE processor does with a span ended after Shutdown is not the statement's subject:
+    // "later OnEnd/OnEmit ... without effect" is said of the batch processor)
+    if (k.kind == kBatch)
+      VH_CHECK(c, k.log->exported == produced, "the provider was shut down / destroyed but child "
+                                                   << j << " (" << what << ") had exported " << k.log->exported << " of "
+                                                   << produced << " records produced before");
+    else if (k.kind == kSimple)
+    {
+      VH_CHECK(c, k.log->exported >= produced, "the provider was shut down / destroyed but child "
+                                                   << j << " (" << what << ") had exported " << k.log->exported << " of "
+                                                   << produced << " records produced before");
+      if (k.log->exported > produced)
+        c.tag("simple-child-exported-after-shutdown");
+    }
+    if (k.kind != kSimple)
+      VH_CHECK(c, k.log->xcalls_after_owner_shutdown == 0,
+               "child " << j << " (" << what << "): " << k.log->xcalls_after_owner_shutdown
+                        << (k.kind == kPeriodic ? " Export call(s) were" : " exporter call(s) were")
+                        << " made after the provider's Shutdown had returned");
+    if (k.kind == kBatch)
+      VH_CHECK(c, k.log->xshutdown_calls == 1, "child " << j << " (batch): its exporter was shut down "
+                                                        << k.log->xshutdown_calls << " times (must be exactly once)");
+    else if (k.log->xshutdown_calls != 1)
+      c.tag(std::string(what) + "-exporter-shutdown-not-once");
+  }
 }
 
 std::vector<ChildKind> gen_kinds(vh::Reader &rd, bool allow_real)
@@ -346,7 +468,7 @@ std::string show_kinds(const std::vector<ChildKind> &k)
 {
   std::string s = "children=[";
   for (auto x : k)
-    s += x == kScripted ? "scripted " : x == kSimple ? "simple " : "batch ";
+    s += x == kScripted ? "scripted " : x == kSimple ? "simple " : x == kPeriodic ? "periodic " : "batch ";
   return s + "]\n";
 }
 }  // namespace
@@ -376,10 +498,13 @@ VH_TARGET(tracer_provider, 3,
   }
   auto provider = std::make_shared<sdkt::TracerProvider>(std::move(procs));
   auto tracer   = provider->GetTracer("c02");
-  run_program(
+  int produced  = run_program(
       c, kids, [&]() { tracer->StartSpan("s")->End(); },
       [&](std::chrono::microseconds to) { return provider->ForceFlush(to); },
       [&](std::chrono::microseconds to) { return provider->Shutdown(to); });
+  tracer = decltype(tracer)();
+  provider.reset();
+  check_after_destruction(c, kids, produced);
 }
 
 VH_TARGET(logger_provider, 3,
@@ -405,30 +530,50 @@ VH_TARGET(logger_provider, 3,
   }
   auto provider = std::make_shared<sdkl::LoggerProvider>(std::move(procs));
   auto logger   = provider->GetLogger("c02", "lib");
-  run_program(
+  int produced  = run_program(
       c, kids, [&]() { logger->EmitLogRecord(otel::logs::Severity::kInfo, "x"); },
       [&](std::chrono::microseconds to) { return provider->ForceFlush(to); },
       [&](std::chrono::microseconds to) { return provider->Shutdown(to); });
+  logger = decltype(logger)();
+  provider.reset();
+  check_after_destruction(c, kids, produced);
 }
 
 VH_TARGET(meter_provider, 3,
-          "MeterProvider over 1..3 scripted readers; non-trivial when 2+ readers are owned or a reader "
+          "MeterProvider over 1..3 scripted readers, one of them possibly a real periodic reader; non-trivial when 2+ readers are owned or a reader "
           "reported false; distinct = distinct program text")
 {
   auto kinds = gen_kinds(c.rd, false);
+  // one of the readers may be a real periodic reader (worker thread, 20 ms interval)
+  if (c.rd.chance(35))
+    kinds[c.rd.below(static_cast<uint32_t>(kinds.size()))] = kPeriodic;
   c.note(show_kinds(kinds));
   std::vector<Child> kids;
   auto provider = std::make_shared<sdkm::MeterProvider>();
   for (auto k : kinds)
   {
     Child ch{k, std::make_shared<ChildLog>()};
-    provider->AddMetricReader(std::shared_ptr<sdkm::MetricReader>(new ScriptedReader(ch.log)));
+    if (k == kPeriodic)
+    {
+      sdkm::PeriodicExportingMetricReaderOptions o;
+      o.export_interval_millis = std::chrono::milliseconds(20);
+      o.export_timeout_millis  = std::chrono::milliseconds(10);
+      provider->AddMetricReader(std::shared_ptr<sdkm::MetricReader>(new sdkm::PeriodicExportingMetricReader(
+          std::unique_ptr<sdkm::PushMetricExporter>(new MetricSink(ch.log)), o)));
+      c.tag("real-periodic-reader");
+    }
+    else
+      provider->AddMetricReader(std::shared_ptr<sdkm::MetricReader>(new ScriptedReader(ch.log)));
     kids.push_back(ch);
   }
   auto meter   = provider->GetMeter("c02");
   auto counter = meter->CreateUInt64Counter("c");
-  run_program(
+  int produced = run_program(
       c, kids, [&]() { counter->Add(1); },
       [&](std::chrono::microseconds to) { return provider->ForceFlush(to); },
       [&](std::chrono::microseconds to) { return provider->Shutdown(to); });
+  counter.reset();
+  meter = decltype(meter)();
+  provider.reset();
+  check_after_destruction(c, kids, produced);
 }
